@@ -109,10 +109,16 @@ func servedOracleStrict(prop string) func(o *Outcome) []Violation {
 	}
 }
 
-func storeFaults(g *Gen, n int, rate float64) []string {
+func storeFaults(g *Gen, n int, rate float64, only ...string) []string {
 	out := make([]string, n)
 	// swarm style: every run enables its own subset of the fault kinds
+	// (no bit flips here: a record carries no checksum, a flipped body or header byte cannot be
+	// told from the original - what pike owes a flipped record is decided by C09: no panic,
+	// no hang, no runaway allocation)
 	all := []string{"err", "notfound", "delay", "trunc", "garbage", "drop", "cut", "cutend", "zerotail"}
+	if len(only) > 0 {
+		all = append([]string(nil), only...)
+	}
 	g.R.Shuffle(len(all), func(i, j int) { all[i], all[j] = all[j], all[i] })
 	enabled := map[string]bool{}
 	for _, k := range all[:g.n(1, len(all))] {
@@ -122,7 +128,7 @@ func storeFaults(g *Gen, n int, rate float64) []string {
 		if !g.p(rate) {
 			continue
 		}
-		f := pick(g, "err", "err", "notfound", "delay:2", "delay:4", "trunc:"+strconv.Itoa(g.n(0, 4000)), "garbage:"+strconv.Itoa(g.n(0, 99)), "drop", "cut:"+strconv.Itoa(g.n(0, 60)), "cutend:"+strconv.Itoa(g.n(1, 20)), "zerotail:"+strconv.Itoa(pick(g, 8, 16, 16, 24, 40, 200)))
+		f := pick(g, "err", "err", "notfound", "delay:2", "delay:4", "trunc:"+strconv.Itoa(g.n(0, 4000)), "garbage:"+strconv.Itoa(g.n(0, 99)), "drop", "cut:"+strconv.Itoa(g.n(0, 60)), "cutend:"+strconv.Itoa(g.n(1, 20)), "zerotail:"+strconv.Itoa(pick(g, 8, 16, 16, 24, 40, 200)), "flip:"+strconv.Itoa(g.n(0, 1<<20)))
 		kind := f
 		if j := strings.IndexByte(f, ':'); j > 0 {
 			kind = f[:j]
@@ -141,7 +147,13 @@ func genC10(g *Gen) *Plan {
 		p.ShardMode = pick(g, "one", "two")
 	}
 	p.Configs = []Config{baseConfig(size, "1s", storeURL)}
+	if g.p(0.3) {
+		// a server with a content type filter of its own (it travels with every stored record)
+		p.Configs[0].Servers[0].CompressContentTypeFilter = pick(g, "text|json", "json", "text|javascript|json|wasm|xml")
+		p.Configs[0].Servers[0].CompressMinLength = pick(g, "", "100")
+	}
 	p.StoreTTL = pick(g, "exact", "exact", "late", "never")
+	cancels := g.p(0.3)
 	nkeys := g.n(1, 4)
 	p.Scripts = map[string][]Reply{}
 	var uris []string
@@ -179,6 +191,8 @@ func genC10(g *Gen) *Plan {
 				op.Header = append(op.Header, [2]string{"Accept-Encoding", pick(g, "gzip", "br", "gzip, br")})
 			}
 			op.Barrier = g.p(0.2)
+			// its client may go away at any step, also while the store is being read for it
+			op.Cancellable = cancels && g.p(0.2)
 			p.Ops = append(p.Ops, op)
 		case x < 17:
 			p.Ops = append(p.Ops, Op{Kind: OpPurge, Cache: "c1", Key: "GET " + hostA + " " + uris[g.R.IntN(len(uris))]})
